@@ -201,6 +201,46 @@ type c13scenario struct {
 	MaxExec int
 }
 
+// schedScenario is the property-independent form run by the scheduler worker.
+type schedScenario struct {
+	Name    string
+	Tag     string // prefix of violation signatures (module state / scenario class)
+	Bound   int
+	MaxExec int
+	// Fresh returns the thread bodies over a fresh instance and their names.
+	Fresh func() (bodies []func() string, names []string)
+	// Want returns the lone sequential result of every body (each on a fresh instance).
+	Want func() []string
+}
+
+// schedRegistry maps a property id to its scenario list.
+var schedRegistry = map[string]func(quick bool) []schedScenario{}
+
+func init() {
+	schedRegistry["C13"] = func(quick bool) []schedScenario {
+		var out []schedScenario
+		for _, sc := range c13scenarios(quick) {
+			sc := sc
+			out = append(out, schedScenario{
+				Name: sc.Name, Tag: strings.SplitN(c13mods[sc.Mod].name, "-", 2)[0], Bound: sc.Bound, MaxExec: sc.MaxExec,
+				Fresh: func() ([]func() string, []string) {
+					m := c13mods[sc.Mod].mk()
+					var bs []func() string
+					var ns []string
+					for _, bi := range sc.Bodies {
+						bi := bi
+						bs = append(bs, func() string { return c13bodies[bi].run(m) })
+						ns = append(ns, c13bodies[bi].name)
+					}
+					return bs, ns
+				},
+				Want: func() []string { return c13expected(sc) },
+			})
+		}
+		return out
+	}
+}
+
 func c13scenarios(quick bool) []c13scenario {
 	var out []c13scenario
 	for mi, md := range c13mods {
@@ -279,15 +319,15 @@ type c13replay struct {
 	Report   string   `json:"race_report,omitempty"`
 }
 
-func c13findScenario(name string) (c13scenario, bool) {
+func schedFindScenario(id, name string) (schedScenario, bool) {
 	for _, q := range []bool{true, false} {
-		for _, sc := range c13scenarios(q) {
+		for _, sc := range schedRegistry[id](q) {
 			if sc.Name == name {
 				return sc, true
 			}
 		}
 	}
-	return c13scenario{}, false
+	return schedScenario{}, false
 }
 
 // c13expected computes the lone sequential text of every body on a fresh instance.
@@ -300,13 +340,14 @@ func c13expected(sc c13scenario) []string {
 	return want
 }
 
-func c13worker(sc c13scenario, only []int) c13result {
-	res := c13result{Scenario: sc.Name, Bound: sc.Bound, RaceBuild: vhook.RaceEnabled, Threads: len(sc.Bodies)}
-	want := c13expected(sc)
+func schedWorker(sc schedScenario, only []int) c13result {
+	res := c13result{Scenario: sc.Name, Bound: sc.Bound, RaceBuild: vhook.RaceEnabled}
+	want := sc.Want()
+	res.Threads = len(want)
 	rl := sched.NewRaceLog(os.Getenv("VERIF_RACELOG"))
 	outcomes := map[string]bool{}
 	seen := map[string]bool{}
-	modTag := strings.SplitN(c13mods[sc.Mod].name, "-", 2)[0]
+	modTag := sc.Tag
 	addViol := func(sig string, d c13replay) {
 		sig = modTag + "/" + sig
 		if seen[sig] || len(res.Viols) > 20 {
@@ -316,12 +357,12 @@ func c13worker(sc c13scenario, only []int) c13result {
 		res.Viols = append(res.Viols, c13viol{sig, d})
 	}
 	mk := func() ([]func(), func(vhook.Result, vhook.Trace)) {
-		m := c13mods[sc.Mod].mk()
-		got := make([]string, len(sc.Bodies))
+		fb, names := sc.Fresh()
+		got := make([]string, len(fb))
 		var bodies []func()
-		for k, bi := range sc.Bodies {
-			k, bi := k, bi
-			bodies = append(bodies, func() { got[k] = c13bodies[bi].run(m) })
+		for k := range fb {
+			k := k
+			bodies = append(bodies, func() { got[k] = fb[k]() })
 		}
 		after := func(r vhook.Result, tr vhook.Trace) {
 			d := c13replay{Scenario: sc.Name, Schedule: tr.Choice, Threads: tr.Thread}
@@ -332,16 +373,16 @@ func c13worker(sc c13scenario, only []int) c13result {
 			for i, p := range r.Panics {
 				if p != nil {
 					d.What = fmt.Sprintf("thread %d panicked: %v", i, p)
-					addViol("panic/"+c13bodies[sc.Bodies[i]].name, d)
+					addViol("panic/"+names[i], d)
 				}
 			}
 			key := strings.Join(got, "\x00")
 			outcomes[fmt.Sprint(len(key))+key[:min(len(key), 64)]+fmt.Sprint(hashStr(key))] = true
 			for i := range got {
 				if got[i] != want[i] && r.Panics[i] == nil && !r.Deadlock {
-					d.What = fmt.Sprintf("thread %d (%s) returned a text different from the lone sequential call", i, c13bodies[sc.Bodies[i]].name)
+					d.What = fmt.Sprintf("thread %d (%s) returned a result different from the lone sequential call", i, names[i])
 					d.Want, d.Got = []string{want[i]}, []string{got[i]}
-					addViol("text/"+c13bodies[sc.Bodies[i]].name, d)
+					addViol("text/"+names[i], d)
 				}
 			}
 			for _, rc := range rl.Poll() {
@@ -392,16 +433,16 @@ func hashStr(s string) uint64 {
 }
 
 // c13freeRun is the non-deciding cross-check: the same bodies on plain goroutines under -race.
-func c13freeRun(sc c13scenario, iters int) (mismatch string) {
-	want := c13expected(sc)
+func schedFreeRun(sc schedScenario, iters int) (mismatch string) {
+	want := sc.Want()
 	for it := 0; it < iters; it++ {
-		m := c13mods[sc.Mod].mk()
-		got := make([]string, len(sc.Bodies))
+		fb, _ := sc.Fresh()
+		got := make([]string, len(fb))
 		var wg sync.WaitGroup
-		for k, bi := range sc.Bodies {
-			k, bi := k, bi
+		for k := range fb {
+			k := k
 			wg.Add(1)
-			go func() { defer wg.Done(); got[k] = c13bodies[bi].run(m) }()
+			go func() { defer wg.Done(); got[k] = fb[k]() }()
 		}
 		wg.Wait()
 		for i := range got {
@@ -459,9 +500,10 @@ func spawnWorkers(id string, names []string, tier string, extra ...string) [][]b
 	return out
 }
 
-func runC13(c *fw.Check) {
-	if hasArg("--worker") {
-		sc, ok := c13findScenario(argValue("--scenario"))
+// schedWorkerMain is the entry point of a scheduler worker subprocess.
+func schedWorkerMain(id string) {
+	{
+		sc, ok := schedFindScenario(id, argValue("--scenario"))
 		if !ok {
 			fw.Fatalf("unknown scenario")
 		}
@@ -473,17 +515,23 @@ func runC13(c *fw.Check) {
 			}
 		}
 		var r c13result
-		if p := fw.Try(func() { r = c13worker(sc, only) }); p != "" {
+		if p := fw.Try(func() { r = schedWorker(sc, only) }); p != "" {
 			r = c13result{Scenario: sc.Name, RaceBuild: vhook.RaceEnabled, Execs: 1, Viols: []c13viol{{"panic-outside-schedule@" + fw.PanicSiteOf(p), c13replay{Scenario: sc.Name, What: "library panicked while computing the sequential reference: " + p}}}}
 		}
 		if hasArg("--free") {
-			if mm := c13freeRun(sc, 200); mm != "" {
+			if mm := schedFreeRun(sc, 200); mm != "" {
 				r.Viols = append(r.Viols, c13viol{"free-run/text", c13replay{Scenario: sc.Name, What: mm}})
 			}
 		}
 		b, _ := json.Marshal(r)
 		os.Stdout.Write(b)
 		os.Exit(0)
+	}
+}
+
+func runC13(c *fw.Check) {
+	if hasArg("--worker") {
+		schedWorkerMain("C13")
 	}
 	c13requireFull()
 	scs := c13scenarios(c.Quick())
